@@ -301,9 +301,10 @@ class World:
                 k = a.lower()
                 args.append(('val', k, fresh('%s_arg%d' % (name, p), z3.ArraySort(I, eng.sort_of_kind(k)))))
         ret = ret.strip()
-        samelen = ret.endswith('=len0')
-        if samelen:
-            ret = ret[:-5]
+        samelen = None
+        for k in range(4):
+            if ret.endswith('=len%d' % k):
+                samelen, ret = k, ret[:-5]
         if ret.startswith('Arr['):
             ek = ret[4:-1].lower()
             retd = ('arr', ek, fresh(name + '_ret', z3.ArraySort(I, z3.ArraySort(I, eng.sort_of_kind(ek)))),
@@ -683,7 +684,10 @@ class World:
     def isinstance_(self, eng, st, v, cls, node):
         if cls.kind == 'tuple':
             raise EngineError('isinstance with a tuple of classes')
-        cname = cls.name if cls.kind == 'cls' else (cls.name if cls.kind == 'fn' else None)
+        cname = getattr(cls, 'name', None)
+        hook = self.isinstance_hook(eng, st, v, cls, node)
+        if hook is not None:
+            return hook
         if v.kind == 'exc':
             if cls.kind == 'cls':
                 return [Result(st, VBool(smt.subclass(v.cls.term, cls.term)))]
@@ -850,8 +854,8 @@ class World:
             ra = fresh(fv.name + '_r', z3.ArraySort(I, eng.sort_of_kind(rd[1])))
             rn = fresh(fv.name + '_rlen', I)
             st.assume(rn >= 0)
-            if lg.extra.get('samelen'):
-                a0 = st.node(args[0])
+            if lg.extra.get('samelen') is not None:
+                a0 = st.node(args[lg.extra['samelen']])
                 st.assume(rn == a0.n)
             res = st.alloc(Arr(rd[1], ra, rn, 'ndarray'))
             newret = ('arr', rd[1], z3.Store(rd[2], k, ra), z3.Store(rd[3], k, rn))
